@@ -4,6 +4,7 @@ import (
 	"context"
 	"fmt"
 	"math/rand"
+	"reflect"
 	"sync"
 	"time"
 
@@ -196,7 +197,70 @@ func runC06(e *core.Env, n int, race bool) {
 
 	if !race {
 		checkC06Dynamic(e)
+		checkC06CopySources(e)
 	}
+}
+
+// trackingCloner notes which objects the channel asks it to copy FROM when it fills a receiver's destination.
+type trackingCloner struct {
+	inprocgrpc.ProtoCloner
+	mu      sync.Mutex
+	sources map[uintptr]bool
+	keep    []interface{} // the sources stay alive, so that no later object can take the address of one
+}
+
+func (t *trackingCloner) Copy(out, in interface{}) error {
+	if rv := reflect.ValueOf(in); rv.Kind() == reflect.Ptr {
+		t.mu.Lock()
+		t.sources[rv.Pointer()] = true
+		t.keep = append(t.keep, in)
+		t.mu.Unlock()
+	}
+	return t.ProtoCloner.Copy(out, in)
+}
+
+// checkC06CopySources: whatever the receiver's destination is filled from, it is a copy the channel made when the
+// message was sent - never the very object the sending side handed in (which that side owns again as soon as the
+// send has returned). Senders that run ahead of a stalled receiver, several messages each way, all kinds.
+func checkC06CopySources(e *core.Env) {
+	curEnv = e
+	e.Cases("copy-sources", e.N(60, 600), func(i int, r *rand.Rand) {
+		tc := &trackingCloner{sources: map[uintptr]bool{}}
+		c := NewInproc(&Service{}, carrierOpt{cloner: tc})
+		defer c.Close()
+		kind := Kind(i % 4)
+		tag := fmt.Sprintf("%016x", r.Uint64())
+		sc := genDeliveryScript(r, kind, false, false)
+		if kind.ServerStreams() {
+			// the handler says several things before the client starts to listen
+			for k := 0; k < 3; k++ {
+				sc.Handler = append(sc.Handler, Op{Op: "send", Msg: genMsg(r, fmt.Sprintf("%s/extra/%d", tag, k), false)})
+			}
+			sc.Receiver = append([]Op{{Op: "gatesoft", Gate: "listen"}}, sc.Receiver...)
+		}
+		run, ok, _ := execScript(c, sc, nil)
+		if !ok {
+			e.Inconclusive("C06 copy-sources %s: watchdog", sc.Shape())
+			return
+		}
+		e.Eval(fmt.Sprintf("copy-sources|%s", kind), true)
+		run.objMu.Lock()
+		app := append([]*tpb.Message{}, run.CSentObjs...)
+		if kind != Unary {
+			// (a unary handler's return value is copied once the handler has returned: that object is not in use)
+			app = append(app, run.HSentObjs...)
+		}
+		run.objMu.Unlock()
+		tc.mu.Lock()
+		defer tc.mu.Unlock()
+		e.Count("copy_sources_seen", int64(len(tc.sources)))
+		for _, m := range app {
+			if m != nil && tc.sources[reflect.ValueOf(m).Pointer()] {
+				e.Violate("inproc/tracking/"+kindClass(kind)+"/receiver-filled-from-senders-object", "a receiver's destination was filled straight from the object the sending side had passed to SendMsg / Invoke (not from a copy made when it was sent): whatever the sender does to its object after the send returned can reach the receiver", witness(run))
+				return
+			}
+		}
+	})
 }
 
 // checkC06Dynamic: stream sends of dynamic messages (jhump) with a stalled receiver.
